@@ -151,6 +151,8 @@ RichUnary(m) ==
        KL(<<"b", "a">>, "list"), KL(<<"b", "b">>, "tuple"), KL(<<"a", "zz">>, "list"),
        KL(ks, "list"),
        [op |-> "map", f |-> "pair"],
+       [op |-> "pmap", f |-> "inc", w |-> 2, bs |-> 2],
+       [op |-> "pmap", f |-> "wrap", w |-> 1, bs |-> 3],
        [op |-> "filter", p |-> P("gt1"), lazy |-> TRUE],
        [op |-> "filter", p |-> P("gt1"), lazy |-> FALSE],
        [op |-> "filter", p |-> P("never"), lazy |-> TRUE],
